@@ -102,6 +102,28 @@ def skeleton(src):
                 last=last, rest=rest), None
 
 
+DITTO = re.compile(r'^,\(((?:-?\d+(?:\.\d+)?[um]?,)*)(-?\d+(?:\.\d+)?[um]?|\^\d+(?:\.\d+)?[um]?)\)([*+])\)')
+
+
+def ditto(rest):
+    m = DITTO.match(rest)
+    if not m:
+        return None
+    durs = [dur(x) for x in m.group(1).split(',') if x]
+    if None in durs:
+        return None
+    if dur(m.group(2)) is not None:
+        last = ('gap', dur(m.group(2)))
+    else:
+        e = EXT.match(m.group(2))
+        last = ('extent', num(e.group(1)), {'': 'units', 'u': 'micro', 'm': 'milli'}[e.group(2)])
+    return dict(durs=durs, last=last, mark=m.group(3))
+
+
+def llast(last):
+    return ('.gap %s' % ldur(last[1])) if last[0] == 'gap' else '.extent %s .%s' % (lnum(last[1]), last[2])
+
+
 def lstr(s):
     return '"' + s.replace('\\', '\\\\').replace('"', '\\"') + '"'
 
@@ -127,8 +149,9 @@ def write(tabs, path=None, frag_override=None):
     path = path or os.path.join(vlib.LEAN, 'IRGen', 'Irp.lean')
     frag = json.load(open(os.path.join(vlib.VERIF, 'tools', 'fragment.json')))
     irpA = frag_override if frag_override is not None else frag.get('irpA', [])
+    irpD = frag_override if frag_override is not None else frag.get('irpDitto', [])
     classA = set(frag['classA'])
-    HEAD_ = ['import IRGen.Tables', 'import IRModel.Props.C02',
+    HEAD_ = ['import IRGen.Tables', 'import IRModel.Props.C02', 'import IRModel.Encode',
              '/-! GENERATED by tools/c02_gen.py from the `irp` attributes of /repo on every run. Do not edit. -/',
              'namespace IRGen.IrpObl', 'open IRModel IRModel.Irp IRModel.Props.C02', '']
     lines = []
@@ -155,6 +178,18 @@ def write(tabs, path=None, frag_override=None):
             names.append('IRGen.IrpObl.c02_' + ident)
         elif n in irpA:
             missing.append((n, 'no longer a modelled class-A protocol'))
+        dt = ditto(sk['rest'])
+        if dt is not None:
+            lines.append("def D_%s : Ditto := { durs := [%s], last := %s, mark := '%s' }" % (ident, ', '.join(map(ldur, dt['durs'])), llast(dt['last']), dt['mark']))
+            lines.append('theorem irp_ditto_print_%s : dittoOk I_%s D_%s = true := by decide +kernel' % (ident, ident, ident))
+            names.append('IRGen.IrpObl.irp_ditto_print_' + ident)
+            if n in irpD and t['modelled']:
+                lines.append('theorem irp_ditto_%s : (match IRModel.Encode.buildRepeatFrame IRGen.%s with | .ok z => dittoAgree I_%s D_%s z | .error _ => false) = true := by decide +kernel' % (ident, extract.lean_ident(n), ident, ident))
+                names.append('IRGen.IrpObl.irp_ditto_' + ident)
+            elif n in irpD:
+                missing.append((n, 'ditto: protocol no longer modelled'))
+        elif n in irpD:
+            missing.append((n, 'the irp string has no plain ditto sub-stream any more'))
         blocks.append(lines)
         lines = []
     # the obligations are spread over NCHUNK modules so that lake checks them in parallel
@@ -178,7 +213,7 @@ if __name__ == '__main__':
     import sys
     tabs = extract.tables()
     names, missing, skels, why, mods = write(tabs, frag_override=[t['name'] for t in tabs] if '--all' in sys.argv else None)
-    print(len(skels), 'skeletons;', len(names), 'obligations; missing', missing)
+    print(len(skels), 'skeletons;', len(names), 'obligations; missing', missing if '--all' not in sys.argv else '(all mode)')
     import collections
     print(collections.Counter(why.values()))
     os._exit(0)
